@@ -146,3 +146,12 @@ claim("C04",
       note="Pickling is not applicable to the proof (bounded only). Row-wise behaviour of scikit-learn estimators themselves is the assumed estimator "
            "protocol. Balanced prediction of ConstraintKMeans is the documented exception.",
       technique="deductive verification: row-wise postconditions + a lemma over contracts, structural recursion of the clone helper; z3")
+claim("C14",
+      text="Proof: NGramsMixin._word_ngrams is verified against scikit-learn's own _VectorizerMixin._word_ngrams - the same executor runs both sources on the "
+           "same symbolic token list / stop-word set / ngram_range: same number of n-grams, each a flat tuple of tokens whose space-join is scikit-learn's "
+           "n-gram at the same position; for every token list of length 0..4 and 0..2 stop words with ARBITRARY token strings, 6 ngram ranges. Bounded: "
+           "TraceableCountVectorizer / TraceableTfidfVectorizer vs CountVectorizer / TfidfVectorizer on 6 corpora x 12 option sets (matrices, vocabulary_, "
+           "transform of new documents).",
+      note="Bounded in token count (<=4), stop words (<=2), n (<=3); complete in the strings. The remainder of the vectorizers is scikit-learn code "
+           "(assumed to treat tokens as opaque hashables ordered by sorted()).",
+      technique="deductive verification against the dependency's own source (relational: two programs, one executor), z3 string theory")
